@@ -132,7 +132,19 @@ def extract():
     if not mm:
         raise ExtractError("GrcManager.h: DefaultSilfVersion() not found")
     default_v = int(mm.group(1), 16)
-    return env, order, {"defaultSilfVersion": default_v, "glocThreshold": gloc[0], "glocNew": gloc[1], "glocOld": gloc[2],
+    # pass-level constraints: version that has the field (GdlPass::CompatibleWithVersion) and the request limit below which
+    # DetermineTableVersion steps in
+    ecr = strip_comments(open(os.path.join(REPO, "compiler", "ErrorCheckRules.cpp"), encoding="latin-1").read())
+    pcv = function_body(ecr, r"bool\s+GdlPass::CompatibleWithVersion\s*\(")
+    mpc = re.search(r"if\s*\(\s*m_vpexpConstraints\.size\(\)\s*>\s*0\s*\)\s*\{\s*fRet\s*=\s*\(\s*fxdVersion\s*>=\s*(0x[0-9a-fA-F]+)\s*\)\s*;\s*\*pfxdSilfNeeded\s*=\s*max\(\s*\*pfxdSilfNeeded\s*,\s*(0x[0-9a-fA-F]+)\s*\)", pcv)
+    if not mpc or mpc.group(1) != mpc.group(2):
+        raise ExtractError("GdlPass::CompatibleWithVersion: pass-constraint version requirement not recognised")
+    dtv = function_body(ecr, r"void\s+GrcManager::DetermineTableVersion\s*\(")
+    mdt = re.search(r"fFixPassConstraints\s*&&\s*fxdRequested\s*<=\s*(0x[0-9a-fA-F]+)\s*&&\s*fxdVersionNeeded\s*>\s*(0x[0-9a-fA-F]+)", dtv)
+    if not mdt or mdt.group(1) != mdt.group(2):
+        raise ExtractError("DetermineTableVersion: pass-constraint branch not recognised")
+    return env, order, {"passConstraintVersion": int(mpc.group(1), 16), "passConstraintRequestLimit": int(mdt.group(1), 16),
+                        "defaultSilfVersion": default_v, "glocThreshold": gloc[0], "glocNew": gloc[1], "glocOld": gloc[2],
                         "glatThreshold": glat[0], "glatNew": glat[1], "glatOld": glat[2],
                         "silfCompress": c_comp, "silfCollision": c_coll, "silfPassOpt": c_popt,
                         "silfOffsetLimit": int(m.group(1), 16), "silfLongOffsets": int(m.group(2), 16)}
